@@ -2287,7 +2287,7 @@ int EGLPNUM_TYPENAME_ILLlib_addcol (
 	int rval = 0;
 	EGLPNUM_TYPENAME_ILLlpdata *qslp;
 	EGLPNUM_TYPENAME_ILLmatrix *A;
-	int ncols;
+	int i, ncols;
 	char buf[ILL_namebufsize];
 	int pind, hit;
 	int name_set = 0;
@@ -2306,6 +2306,17 @@ int EGLPNUM_TYPENAME_ILLlib_addcol (
 	qslp = lp->O;
 	A = &qslp->A;
 	ncols = qslp->ncols;
+
+	/* reject a bad column before anything (its name included) is recorded */
+	for (i = 0; i < cnt; i++)
+	{
+		if (ind[i] >= A->matrows || ind[i] < 0)
+		{
+			QSlog("illegal row index in EGLPNUM_TYPENAME_ILLlib_addcol");
+			rval = 1;
+			ILL_CLEANUP;
+		}
+	}
 
 	if (qslp->rA)
 	{															/* After an addcol call, needs to be updated */
@@ -2820,15 +2831,8 @@ static int matrix_addcol (
 	int rval = 0;
 	int i, ind;
 
-	for (i = 0; i < colcnt; i++)
-	{
-		if (colind[i] >= A->matrows || colind[i] < 0)
-		{
-			QSlog("illegal row index in matrix_addcol");
-			rval = 1;
-			ILL_CLEANUP;
-		}
-	}
+	/* the row indices are the caller's business: ILLlib_addcol checks its
+	 * argument before it touches the problem, ILLlib_addrow passes the new row */
 
 	if (A->matcolsize < A->matcols + 1)
 	{
